@@ -16,7 +16,13 @@ def _doc(t0, t1):
     return io.BytesIO(buf.getvalue())
 
 
-def save_neutral(k0, k1, touch_content, touch_styles, pretty_first, **kw):
+def _skel(n):
+    return (n.tag, sorted(n.attrib.items()), (n.text or "").strip(), [_skel(c) for c in n], (n.tail or "").strip())
+
+
+def save_neutral(k1, touch_content, touch_styles, pretty_first, touch_manifest=False, k0=0, **kw):
+    import zipfile
+    from lxml import etree
     t0, t1 = TEXTS[k0], TEXTS[k1]
     src = _doc(t0, t1)
     ref = Document(io.BytesIO(src.getvalue()))
@@ -27,10 +33,23 @@ def save_neutral(k0, k1, touch_content, touch_styles, pretty_first, **kw):
         doc.body  # noqa: B018
     if touch_styles:
         doc.styles.root  # noqa: B018
-    doc.save(io.BytesIO(), pretty=pretty_first)
+    if touch_manifest:
+        doc.manifest.add_full_path("Pictures/x.png", "image/png")
+    out1 = io.BytesIO()
+    doc.save(out1, pretty=pretty_first)
     mem1 = doc.body.serialize()
     out = io.BytesIO()
     doc.save(out, pretty=False)
     again = Document(io.BytesIO(out.getvalue()))
     ok = mem1 == ref_body and doc.body.serialize() == ref_body and doc.styles.root.serialize() == ref_styles and again.body.serialize() == ref_body
-    return (not ok), f"after save(pretty={pretty_first}) the in-memory body is {'unchanged' if mem1 == ref_body else 'CHANGED: ' + mem1[:200]}; a following plain save wrote {'the same body' if again.body.serialize() == ref_body else 'a different body'}"
+    notes = []
+    z1, z2 = zipfile.ZipFile(io.BytesIO(out1.getvalue())), zipfile.ZipFile(io.BytesIO(out.getvalue()))
+    if sorted(z1.namelist()) != sorted(z2.namelist()):
+        notes.append(f"parts differ: {sorted(set(z1.namelist()) ^ set(z2.namelist()))}")
+    for name in ("styles.xml", "meta.xml", "settings.xml", "META-INF/manifest.xml"):
+        if _skel(etree.fromstring(z1.read(name))) != _skel(etree.fromstring(z2.read(name))):
+            notes.append(f"{name} written by save(pretty={pretty_first}) differs from the plain save beyond white space")
+    if touch_manifest and b"Pictures/x.png" not in z1.read("META-INF/manifest.xml"):
+        notes.append("the manifest edit made in memory is missing from the first saved file")
+    return (not ok or bool(notes)), (f"after save(pretty={pretty_first}) the in-memory body is {'unchanged' if mem1 == ref_body else 'CHANGED: ' + mem1[:200]}; "
+                                      f"a following plain save wrote {'the same body' if again.body.serialize() == ref_body else 'a different body'}; " + "; ".join(notes))
